@@ -1088,6 +1088,8 @@ def generate_c14(seed, tier):
         scn['scale'] = rng.stream(seed, 'scale').choice([1, 1, 1, 1e-4, 250.0])
         if scn['scale'] != 1 and scn['precision'] == 'float32' and scn['tdtype'] == 'float64':
             scn['precision'] = 'float64'
+    if L >= 2 and rng.stream(seed, 'zerocol').random() < 0.12:
+        scn['zero_col'] = rng.stream(seed, 'zerocol2').randrange(L)
     hs = rng.stream(seed, 'history')
     scn['build_twice'] = hs.random() < 0.12
     scn['build_fault'] = hs.choice([0, 0, 1, 2, 3]) if hs.random() < 0.12 else None
@@ -1117,6 +1119,12 @@ def c14_data(scn):
     ptm = g.integers(0, k, (nm, 1)).astype('uint8')
     posm = (ptm[:, 0].astype(int) + scn['key']) % k
     Tm = posm[:, None] * gains[None, :] + g.integers(-a, a + 1, (nm, L))
+    zc = scn.get('zero_col')
+    if zc is not None and L >= 2:
+        # one sample identically zero in every trace (padding after resynchronisation): the pooled covariance is exactly singular and the
+        # statement's pseudo-inverse, not an inverse, defines the scores
+        Tb[:, zc % L] = 0
+        Tm[:, zc % L] = 0
     td = scn['tdtype']
     sc = scn.get('scale') or 1
     if sc != 1:
@@ -1247,7 +1255,9 @@ def execute_c14(scn):
         if violation is None:
             hyp = np.stack([kinds.leak(classes, ptm[:, 0], g) for g in range(k)], 1) if kind == 'tdpa' else None
             mus, S, sc = c14_model(Tb, vb, classes, Tm, hyp)
-            if np.linalg.cond(S) > 1e3:
+            nzd = np.diag(S) != 0
+            Sred = S[np.ix_(nzd, nzd)] if (nzd.any() and not nzd.all() and not S[~nzd].any() and not S[:, ~nzd].any()) else S
+            if np.linalg.cond(Sred) > 1e3:
                 # ill-conditioned pooled covariance: pinv is not comparable across roundings (precondition, DESIGN 4.3)
                 return {'violation': None, 'inconclusive': True, 'digest': rng.digest(storage.events), 'case': 'illcond', 'nontrivial': False,
                         'faults': {}, 'probes': {'ill_conditioned_covariance': 1}, 'sim_time': storage.seq}
@@ -1307,7 +1317,7 @@ def execute_c14(scn):
                 okA = compare.close(np.asarray(att.templates)[popm], musA[popm], tol, ttol) and compare.close(att.pooled_covariance, SA, tol, ctol)
                 okB = compare.close(np.asarray(att.templates)[popm], mus[popm], tol, ttol) and compare.close(att.pooled_covariance, S, tol, ctol)
                 probes['second_build'] = 1
-                if okA and np.linalg.cond(SA) <= 1e3:
+                if okA:
                     mus, S, sc = musA, SA, scA
                 elif not okB:
                     violation = viol('second_build_differs_from_model', ['C14', 'second_build_differs_from_model'] + sig_tail,
@@ -1449,7 +1459,7 @@ def _cands_c14(scn):
         c['per_class'] = [2] * len(c['per_class'])
         yield c
     for key, val in (('match_cuts', []), ('probe_before_build', False), ('build_rule', 1000), ('build_rule_2', 1000), ('match_rule', 1000),
-                     ('threads', 1), ('tdtype', 'float32'), ('key', 0), ('vdtype', 'uint8'), ('build_twice', False), ('build_fault', None), ('scale', 1)):
+                     ('threads', 1), ('tdtype', 'float32'), ('key', 0), ('vdtype', 'uint8'), ('build_twice', False), ('build_fault', None), ('scale', 1), ('zero_col', None)):
         if scn.get(key) != val:
             c = copy.deepcopy(scn)
             c[key] = val
